@@ -278,28 +278,7 @@ def run(ctx):
     _render.layer_image_unconditional(ctx, rule='R5')
     _render.order(ctx, rule='R5')
     _render.gate(ctx, rule='R5')          # 'exactly one visible layer': the frame draws a cel iff Layer::is_visible of its layer
-    simple = {
-        'asefile::tilemap::Tilemap::image': ('asefile::cel::Cel::image', [(1, ['cel'])]),
-        'asefile::file::Frame::image': ('asefile::file::AsepriteFile::frame_image', [(1, ['file']), (1, ['index'])]),
-        'asefile::cel::Cel::image': ('asefile::file::AsepriteFile::layer_image', [(1, ['file']), (1, ['cel_id'])]),
-    }
-    for fn, (callee, argspec) in simple.items():
-        b = ctx.anchor(fn)
-        if b is None:
-            continue
-        t = res(b).ret()
-        ok = t[0] == 'call' and t[1] == callee and len(t[2]) == len(argspec) and all(
-            is_param_path(strip_casts(a), i, ns) for a, (i, ns) in zip(t[2], argspec))
-        ctx.inst('R5', fn, ok, 'returns %s; must be exactly %s(%s)' % (show(t), callee.split('::')[-1],
-                 ', '.join('self.' + '.'.join(ns) for _, ns in argspec)), b.span, key=fn + '|R5|delegate')
-        # .. and hands it on untouched: nothing else in the body gets hold of the image (seed C19-h normalised transparent pixels in
-        # Cel::image only, so the frame of a single cel and the cel's image differ where alpha is 0)
-        for c in q.calls(b):
-            cn = q.callee_name(c)
-            if cn != callee and any(q.contains(x, t) for x in q.arg_terms(c)):
-                ctx.inst('R5', fn + '#postprocess', False, '%s passes the image it got from %s to %s before returning it; the delegating accessors '
-                         'must return the shared routine\'s image untouched' % (fn.split('asefile::')[-1], callee.split('::')[-1], cn), c.span,
-                         key=ctx.key(fn, 'R5', 'touch', cn))
+    _render.image_delegation(ctx, rule='R5')
 
     # ---------- R6: AsepriteFile::tilemap builds its Cel through cel(frame, layer_id)
     b = ctx.anchor('asefile::file::AsepriteFile::tilemap')
